@@ -134,16 +134,6 @@ Definition assert_uri (u : Z) (s : dmstate) : dmstate :=
        d_ids := d_ids s ++ [(u, n)]; d_data := d_data s |}
   end.
 
-(** the URIs StoreEntitiesWithTransaction asserts for one entity: its id; the predicate and the target of its
-    reference when the id was new to the store or the entity is not deleted (a deleted version of a known id only
-    tombstones the references of its predecessor) *)
-Definition assert_went (w : went) (s : dmstate) : dmstate :=
-  let isnew := negb (amem (w_e w) (d_ids s)) in
-  let s1 := assert_uri (w_e w) s in
-  if w_t w <? 0 then s1
-  else if isnew || negb (w_del w) then assert_uri (w_t w) (assert_uri u_pred s1)
-  else s1.
-
 Definition set_fs (fm : fs_mode) (fs : list (Z * fsst)) (s : dmstate) : dmstate :=
   {| m_reg := m_reg s; m_del := m_del s; m_next := m_next s; m_ns := m_ns s; m_fs := fs; m_seq := m_seq s;
      d_reg := d_reg s; d_del := d_del s; d_next := d_next s; d_ns := d_ns s;
@@ -155,8 +145,38 @@ Definition set_data (st : store) (s : dmstate) : dmstate :=
      d_reg := d_reg s; d_del := d_del s; d_next := d_next s; d_ns := d_ns s; d_fs := d_fs s;
      d_ids := d_ids s; d_data := st |}.
 
+(** the URIs StoreEntitiesWithTransaction asserts (assertIDForURI), in order, for a batch decided against the dataset
+    snapshot [d]: per entity its id; then, for an id new to the store, the predicate and target of its reference;
+    for a known id that is kept (not skipped as unchanged), first the reference of the version it replaces (the
+    in-batch predecessor, else the stored latest - this is where the target of a reference that arrived on a deleted
+    version gets its id), then its own reference unless it is deleted.  [known] = the URIs that have an id so far. *)
+Definition ref_uris (c : content) : list Z :=
+  match c_refs c with
+  | (_, r) :: _ => match rv_tgts r with t :: _ => [u_pred; t] | [] => [] end
+  | [] => []
+  end.
+Fixpoint batch_uris (fl : rflags) (d : dstate) (known : list Z) (loc : list (uri * content)) (es : list ent) : list Z :=
+  match es with
+  | [] => []
+  | e :: es' =>
+    let id := e_id e in
+    let c := e_c e in
+    let stored := stored_latest d id in
+    let local := assoc id loc in
+    let '(us, kept) :=
+      if negb (zmem id known) then (ref_uris c, true)
+      else if keep_decision (f_eq fl) (f_dup fl) stored local c then
+        ((match local with
+          | Some p => ref_uris p
+          | None => match stored with Some p => ref_uris p | None => [] end
+          end) ++ (if c_del c then [] else ref_uris c), true)
+      else ([], false) in
+    id :: us ++ batch_uris fl d (id :: us ++ known) (if kept then (id, c) :: loc else loc) es'
+  end.
+
 (** Dataset.StoreEntities on the dataset with internal id [id] (a non-empty batch): every entity of the batch is
-    marked seen while a full sync is running, then the batch is decided and written (Model/Store.v) *)
+    marked seen while a full sync is running, the URIs get their ids, then the batch is decided and written
+    (Model/Store.v) *)
 Definition dm_store (fl : rflags) (id : Z) (es : list ent) (s : dmstate) : dmstate :=
   match es with
   | [] => s
@@ -165,7 +185,9 @@ Definition dm_store (fl : rflags) (id : Z) (es : list ent) (s : dmstate) : dmsta
               | Some f => set_fs (f_fs fl) (set_assoc id {| fs_id := fs_id f; fs_seen := fs_seen f ++ map e_id es |} (m_fs s)) s
               | None => s
               end in
-    set_data (apply_wop (f_eq fl) (f_dup fl) (d_data s1) (WBatch id es)) s1
+    let s2 := fold_left (fun s u => assert_uri u s)
+                        (batch_uris fl (get_ds (d_data s1) id) (map fst (d_ids s1)) [] es) s1 in
+    set_data (apply_wop (f_eq fl) (f_dup fl) (d_data s2) (WBatch id es)) s2
   end.
 
 (** the internal id of a URI (0 if unknown: not reachable for stored entities) *)
@@ -281,8 +303,7 @@ Definition dm_post (fl : rflags) (n : Z) (start : bool) (fsid : Z) (fin : bool) 
     | None => (s, RConflict)
     | Some s1 =>
       let s2 := fold_left (fun s e => assert_ns e s) (flat_map went_exps es) s1 in
-      let s3 := fold_left (fun s w => assert_went w s) es s2 in
-      let s4 := dm_store fl id (map ent_of es) s3 in
+      let s4 := dm_store fl id (map ent_of es) s2 in
       if fin then
         match assoc id (m_fs s4) with
         | None => (s4, RGone)
